@@ -417,6 +417,20 @@ func describeVal(e *Engine, v ssa.Value, depth int) string {
 				return describeVal(e, ad.X, depth+1) + "[" + describeVal(e, ad.Index, depth+1) + "]"
 			case *ssa.Alloc:
 				if canonNames {
+					// a variable kept in a cell only because a closure reads it: rendered as the value it
+					// would be had it been lifted to a register (the store that reaches the load, or a merge)
+					if e != nil {
+						if cv := e.versionsOf(ad); !cv.volatile {
+							if v, ok := cv.ver[x]; ok {
+								if st, ok := cv.storeOf[v]; ok {
+									return describeVal(e, st.Val, depth+1)
+								}
+								if v != 0 {
+									return "φ"
+								}
+							}
+						}
+					}
 					return "local"
 				}
 				if ad.Comment != "" {
@@ -1065,6 +1079,27 @@ func (e *Engine) proveGE0(v ssa.Value, b *ssa.BasicBlock) (bool, string) {
 	bd := g.boundWith(Term{}, t)
 	if bd <= off {
 		return true, fmt.Sprintf("0 - %s <= %d derivable", t, bd)
+	}
+	// a merge of values each of which is non-negative on the edge it arrives by (if n < 0 { n = 0 })
+	if phi, ok := v.(*ssa.Phi); ok && off == 0 {
+		all := len(phi.Edges) > 0
+		for i, op := range phi.Edges {
+			ot, ooff, ok := e.linOf(op)
+			switch {
+			case !ok:
+				all = false
+			case ot.Kind == 0:
+				all = all && ooff >= 0
+			case ot.Kind == 1:
+				all = all && ooff >= 0
+			default:
+				ge := e.buildGraph(e.onEdge(phi.Block().Preds[i], phi.Block()), nil)
+				all = all && ge.boundWith(Term{}, ot) <= ooff
+			}
+		}
+		if all {
+			return true, "non-negative on every incoming edge"
+		}
 	}
 	return false, fmt.Sprintf("best bound 0 - %s <= %s, need <= %d", t, fmtInf(bd), off)
 }
